@@ -514,7 +514,7 @@ class Lock (object):
     return _LockAcquire(self, blocking)
 
   def _do_release (self, task, scheduler):
-    if not self._locked:
+    if self._locked is None or self._locked is False:
       raise RuntimeError("You haven't locked this lock")
 
     self._locked = None
@@ -528,7 +528,7 @@ class Lock (object):
     return True
 
   def _do_acquire (self, task, scheduler, blocking):
-    if not self._locked:
+    if self._locked is None or self._locked is False:
       self._locked = task
       task.rv = True
       return True # Reclaim running state
